@@ -6,6 +6,7 @@ CONSTANTS
   GuardControl = TRUE
   SafeDecode = TRUE
   GuardEndpoint = TRUE
+  RelayClientChecked = TRUE
   NoSigpipe = TRUE
   MaxHist = 4
 INVARIANTS Reach_PoisonHeldThenFetch
